@@ -48,7 +48,9 @@ impl From<&autd3_core::geometry::Geometry> for Geometry {
 
 impl FromMessage<UnitVector3> for autd3_core::geometry::UnitVector3 {
     fn from_msg(msg: UnitVector3) -> Result<Self, AUTDProtoBufError> {
-        Ok(autd3_core::geometry::UnitVector3::new_normalize(
+        // The message carries the components of a `UnitVector3`: normalizing them again
+        // would move the last bit of about a third of all directions.
+        Ok(autd3_core::geometry::UnitVector3::new_unchecked(
             autd3_core::geometry::Vector3::new(msg.x as _, msg.y as _, msg.z as _),
         ))
     }
